@@ -64,7 +64,8 @@ def gen(w, rng):
         else:
             value = rng.choice([7, -5, 2.5, {"sel": rng.choice([3, 11])}, {"sel_nd": rng.choice([4, 12])}, {"sel_ma": rng.choice([6, 13])}])
         return {"op": "disk_assign", "path": path, "name": name, "idx": idx, "pos": pos, "value": value,
-                "via": rng.choice(["item", "write"]), "check_other_handle": rng.random() < 0.3}
+                "via": rng.choice(["item", "write"]), "check_other_handle": rng.random() < 0.3,
+                "reject_first": rng.random() < 0.2}
     form = rng.choice(["getitem", "getitem", "ix", "loc", "iloc", "sel", "isel", "nloc", "read", "read", "read_nc", "read_nc", "ds_read"])
     if form == "getitem":
         pos = by == "position"
@@ -115,6 +116,12 @@ def _gen_idx(rng, fm, v, pos, allow_absent):
             idx.append({"k": "all"})
         else:
             idx.append(_gen_one(rng, fm.dims[d]["labels"], pos, allow_absent))
+    if idx and rng.random() < 0.08:
+        # the same mask / positions, but held in a DimArray (as the result of `other > 2` would be)
+        cand = [i for i, e in enumerate(idx) if e["k"] in ("m", "l") and (e["k"] == "m" or pos) and e["v"]]
+        if cand:
+            i = rng.choice(cand)
+            idx[i] = {"k": "dm", "v": idx[i]["v"], "d": rng.choice(v["dims"])}
     if idx and rng.random() < 0.15:
         cut = rng.randrange(len(idx))
         idx = idx[:cut + 1] if rng.random() < 0.5 else idx[:cut] + [{"k": "e"}]
@@ -307,13 +314,22 @@ def x_disk_assign(w, s):
         h = w.da.open_nc(path, mode="a")
         try:
             target = h[name]
+            if s.get("reject_first") and arr.ndim and not any(fm.dims[d]["unlimited"] for d in fm.vars[name]["dims"]):
+                # a refused assignment through the same variable handle first (caught by the caller): it must leave
+                # neither data nor state behind
+                bad = np.zeros(tuple(n + 2 for n in arr.shape))
+                try:
+                    target[()] = bad
+                    refused[0] = False
+                except Exception:
+                    refused[0] = True
             if s["via"] == "write":
                 target.write(index, val, indexing=indexing)
             elif (indexing == by):
                 target[index] = val
             else:
                 target.ix[index] = val
-            first = h[name].read()
+            first = target.read() if refused[0] is not None else h[name].read()
             if s.get("check_other_handle"):
                 with w.da.open_nc(path) as h2:      # a second, read-only handle while the writer is still open
                     other[0] = h2[name].read()
@@ -321,7 +337,10 @@ def x_disk_assign(w, s):
         finally:
             h.close()
     other = [None]
+    refused = [None]
     got = _guard(run)
+    if refused[0] is not None:
+        w.count("c20:assign_after_refused_one" if refused[0] else "c20:oversized_assignment_was_accepted")
     F.finalize_leaks(w)
     w.n_disk += 1
     w.count("c20:assign_%s_%s" % (indexing, "dimarray" if isinstance(val, w.da.DimArray) else ("ndarray" if isinstance(val, np.ndarray) else "scalar")))
